@@ -5,15 +5,12 @@ package wsutil
 import (
 	"bufio"
 	"bytes"
-	"context"
 	"crypto/sha1"
 	"encoding/base64"
 	"io"
 	"net"
 	"net/http"
 	"time"
-
-	"github.com/gobwas/ws"
 )
 
 // vScriptConn is a net.Conn that records writes and serves a scripted answer.
@@ -42,29 +39,6 @@ func (c *vScriptConn) RemoteAddr() net.Addr               { return vStubAddr{} }
 func (c *vScriptConn) SetDeadline(t time.Time) error      { return nil }
 func (c *vScriptConn) SetReadDeadline(t time.Time) error  { return nil }
 func (c *vScriptConn) SetWriteDeadline(t time.Time) error { return nil }
-
-// C11_debug_dialer_failed_dial: the debugging dialer reports exactly the bytes exchanged and
-// does not change the outcome — also when nothing was exchanged because the dial failed.
-func C11_debug_dialer_failed_dial() {
-	var req, resp []byte
-	gotReq, gotResp := false, false
-	d := DebugDialer{
-		Dialer: ws.Dialer{NetDial: func(ctx context.Context, network, addr string) (net.Conn, error) {
-			return nil, vErrSrc
-		}},
-	}
-	if vChoose("onrequest", 2) == 1 {
-		d.OnRequest = func(p []byte) { gotReq = true; req = append(req, p...) }
-	}
-	if vChoose("onresponse", 2) == 1 {
-		d.OnResponse = func(p []byte) { gotResp = true; resp = append(resp, p...) }
-	}
-	conn, br, _, err := d.Dial(context.Background(), "ws://example.com/path")
-	vAssert(err == vErrSrc, "debug.outcome_is_the_dial_error")
-	vAssert(vAnd(conn == nil, br == nil), "debug.no_conn_on_failed_dial")
-	vAssert(vAnd(len(req) == 0, len(resp) == 0), "debug.nothing_exchanged_nothing_reported")
-	_, _ = gotReq, gotResp
-}
 
 // ---- models of the two net/http parsers used by the debug wrappers (the real ones cannot be
 // encoded; natively the real ones run, and the replayed witnesses compare the two) ----
@@ -135,54 +109,6 @@ func (c *vLazyConn) Read(p []byte) (int, error) {
 	return c.vScriptConn.Read(p)
 }
 
-// C11_debug_dialer: exactly the request and response bytes are reported, the outcome is the
-// undecorated one, post-handshake bytes are preserved.
-func C11_debug_dialer() {
-	vRandConcrete(true)
-	t := vChoose("t", 3)
-	trailing := vBytes("trail", t)
-	conn := &vLazyConn{trailing: trailing, bad: vChoose("bad", 2) == 1}
-	var req, resp []byte
-	d := DebugDialer{Dialer: ws.Dialer{NetDial: func(ctx context.Context, network, addr string) (net.Conn, error) { return conn, nil }}}
-	onReq, onResp := vChoose("onrequest", 2) == 1, vChoose("onresponse", 2) == 1
-	if onReq {
-		d.OnRequest = func(p []byte) { req = append(req, p...) }
-	}
-	if onResp {
-		d.OnResponse = func(p []byte) { resp = append(resp, p...) }
-	}
-	c, br, _, err := d.Dial(context.Background(), "ws://example.com/path")
-	vAssert((err == nil) == !conn.bad, "debug.outcome_unchanged")
-	if onReq {
-		vAssert(vEqBytes(req, conn.wrote), "debug.request_bytes_reported")
-	}
-	head := conn.answer[:len(conn.answer)-t]
-	if onResp {
-		vAssert(vEqBytes(resp, head), "debug.response_head_reported")
-	}
-	if err != nil {
-		vAssert(conn.closed, "debug.conn_closed_on_error")
-		return
-	}
-	var got []byte
-	if br != nil {
-		n := br.Buffered()
-		p, _ := br.Peek(n)
-		got = append(got, p...)
-	}
-	buf := make([]byte, 8)
-	if c != nil {
-		for i := 0; i < 4; i++ {
-			n, e := c.Read(buf)
-			got = append(got, buf[:n]...)
-			if e != nil {
-				break
-			}
-		}
-	}
-	vAssert(vEqBytes(got, trailing), "debug.trailing_bytes_preserved")
-}
-
 type vPlainRW struct {
 	in  []byte
 	pos int
@@ -198,38 +124,3 @@ func (c *vPlainRW) Read(p []byte) (int, error) {
 	return n, nil
 }
 func (c *vPlainRW) Write(p []byte) (int, error) { c.out = append(c.out, p...); return len(p), nil }
-
-// C11_debug_upgrader: same for the upgrader wrapper.
-func C11_debug_upgrader() {
-	good := vChoose("good", 2) == 1
-	reqBytes := []byte("GET /x HTTP/1.1\r\nHost: h\r\nUpgrade: websocket\r\nConnection: Upgrade\r\nSec-WebSocket-Version: 13\r\nSec-WebSocket-Key: dGhlIHNhbXBsZSBub25jZQ==\r\n\r\n")
-	if !good {
-		reqBytes = []byte("GET /x HTTP/1.1\r\nHost: h\r\nUpgrade: websocket\r\nConnection: close\r\nSec-WebSocket-Version: 13\r\nSec-WebSocket-Key: dGhlIHNhbXBsZSBub25jZQ==\r\n\r\n")
-	}
-	t := vChoose("t", 3)
-	trailing := vBytes("trail", t)
-	conn := &vPlainRW{in: append(append([]byte{}, reqBytes...), trailing...)}
-	ref := &vPlainRW{in: conn.in}
-	var u0 ws.Upgrader
-	_, err0 := u0.Upgrade(ref)
-	var req, resp []byte
-	d := DebugUpgrader{}
-	onReq, onResp := vChoose("onrequest", 2) == 1, vChoose("onresponse", 2) == 1
-	if onReq {
-		d.OnRequest = func(p []byte) { req = append(req, p...) }
-	}
-	if onResp {
-		d.OnResponse = func(p []byte) { resp = append(resp, p...) }
-	}
-	_, err := d.Upgrade(conn)
-	vAssert((err == nil) == (err0 == nil), "debug.upgrader_outcome_unchanged")
-	vAssert((err == nil) == good, "debug.upgrader_outcome")
-	vAssert(vEqBytes(conn.out, ref.out), "debug.upgrader_same_bytes_written")
-	if onResp {
-		vAssert(vEqBytes(resp, conn.out), "debug.upgrader_response_reported")
-	}
-	if onReq {
-		// what is reported starts with the request head (the parser may have prefetched more)
-		vAssert(vAnd(len(req) >= len(reqBytes), vEqBytes(req[:len(reqBytes)], reqBytes)), "debug.upgrader_request_reported")
-	}
-}
